@@ -29,7 +29,9 @@
 //!
 //! Result (one line, deterministic for a fixed op line):
 //!   ok c2s=<dir> s2c=<dir> cerr=<errs|-> serr=<errs|-> tc=<ms|-> ts=<ms|-> end=<done|deadline>
-//!      tend=<ms|-> pkts=<n> dropped=<n> duped=<n> delayed=<n> accepted=<n> idle=<ms> late=<0|1>
+//!      tend=<ms|-> pkts=<n> dropped=<n> duped=<n> delayed=<n> accepted=<n>
+//!      ghost=<streams nobody opened that the server application was handed>:<bytes read on them>:<bytes differing from the request payload>
+//!      idle=<ms> late=<0|1>
 //!      panic=<file:line of a panic on a background thread|->
 //!   <dir> = w:<bytes accepted by write>,wa:<end offset of the last attempted write>,fin:<0|1 shutdown ok>,
 //!           r:<bytes read>,crc:<crc32 of the bytes read>,cmp:<ok|lost@off|dup@off|wrong@off>,eof:<clean|err|none>
@@ -73,6 +75,9 @@ fn install_panic_hook() {
                 format!("{f}:{}", l.line())
             })
             .unwrap_or_else(|| "?".into());
+        if std::env::var_os("VH_BT").is_some() {
+            eprintln!("PANIC at {loc}\n{}", std::backtrace::Backtrace::force_capture());
+        }
         if let Ok(mut g) = LAST_PANIC.lock() {
             if g.is_none() {
                 *g = Some(loc);
@@ -330,6 +335,10 @@ struct Report {
     deadline: bool,
     accepted: u64,
     late: bool,
+    /// streams the server application was handed beyond the one(s) the client opened
+    ghosts: u64,
+    ghost_bytes: u64,
+    ghost_bad: u64,
 }
 
 type Shared = Arc<Mutex<Report>>;
@@ -772,6 +781,9 @@ fn run_udp(p: Params) -> (Report, net::Adversary) {
     let rep_s = rep.clone();
     let pc = p.clone();
     let ps = p.clone();
+    let forgot = Arc::new(std::sync::atomic::AtomicBool::new(false));
+    let forgot_c = forgot.clone();
+    let forgot_s = forgot.clone();
 
     net::sim_with(adv.clone(), move || {
         async move {
@@ -784,7 +796,14 @@ fn run_udp(p: Params) -> (Report, net::Adversary) {
                     Ok(stream) => drop(stream),
                     Err(e) => push_err(&rep, Side::Client, "connect0", &e),
                 }
-                bach::time::sleep(Duration::from_millis(1)).await;
+                // open the real stream only after the server dropped its state (at most 2 s of waiting:
+                // the throw-away stream's packets are subject to the network faults, too)
+                for _ in 0..2000 {
+                    bach::time::sleep(Duration::from_millis(1)).await;
+                    if forgot_c.load(std::sync::atomic::Ordering::SeqCst) {
+                        break;
+                    }
+                }
             }
             let flow = async {
                 match client.connect_sim("server:443").await {
@@ -806,18 +825,48 @@ fn run_udp(p: Params) -> (Report, net::Adversary) {
             let p = ps;
             let rep = rep_s;
             let server = Server::udp().port(443).mtu(p.smtu).build();
+            let expected: u64 = if p.server_op == ServerOp::ForgetSecret { 2 } else { 1 };
             while let Ok((mut stream, _addr)) = server.accept().await {
-                let first = {
+                let nth = {
                     let mut r = rep.lock().unwrap();
                     r.accepted += 1;
-                    r.accepted == 1
+                    r.accepted
                 };
-                if p.server_op == ServerOp::ForgetSecret && first {
+                if p.server_op == ServerOp::ForgetSecret && nth == 1 {
                     // simulate a restart: the server no longer knows the path secret
                     server.map().drop_state();
+                    forgot_s.store(true, std::sync::atomic::Ordering::SeqCst);
                     async move {
                         let mut sink = vec![];
                         let _ = stream.read_to_end(&mut sink).await;
+                    }
+                    .spawn();
+                    continue;
+                }
+                if nth > expected || (p.server_op != ServerOp::ForgetSecret && nth > 1) {
+                    // a stream nobody opened: drain it and remember what the application was handed
+                    let rep = rep.clone();
+                    let key = key_c2s(p.seed);
+                    rep.lock().unwrap().ghosts += 1;
+                    async move {
+                        let mut buf = vec![0u8; 65536];
+                        let mut off = 0u64;
+                        loop {
+                            match stream.read(&mut buf).await {
+                                Ok(0) | Err(_) => break,
+                                Ok(n) => {
+                                    let bad = buf[..n]
+                                        .iter()
+                                        .enumerate()
+                                        .filter(|(i, b)| **b != payload_byte(key, off + *i as u64))
+                                        .count() as u64;
+                                    off += n as u64;
+                                    let mut r = rep.lock().unwrap();
+                                    r.ghost_bytes += n as u64;
+                                    r.ghost_bad += bad;
+                                }
+                            }
+                        }
                     }
                     .spawn();
                     continue;
@@ -973,7 +1022,7 @@ fn run(p: Params) -> String {
     if p.tcp {
         let r = run_tcp(p);
         format!(
-            "ok c2s={} s2c={} cerr={} serr={} tc=- ts=- end={} tend=- pkts=0 dropped=0 duped=0 delayed=0 accepted={} idle={} late={}",
+            "ok c2s={} s2c={} cerr={} serr={} tc=- ts=- end={} tend=- pkts=0 dropped=0 duped=0 delayed=0 accepted={} ghost=0:0:0 idle={} late={}",
             r.c2s.render(),
             r.s2c.render(),
             errs(&r.cerr),
@@ -988,7 +1037,7 @@ fn run(p: Params) -> String {
         let st = adv.state.lock().unwrap();
         let tend = r.tc.unwrap_or(0).max(r.ts.unwrap_or(0));
         format!(
-            "ok c2s={} s2c={} cerr={} serr={} tc={} ts={} end={} tend={} pkts={} dropped={} duped={} delayed={} accepted={} idle={} late=0",
+            "ok c2s={} s2c={} cerr={} serr={} tc={} ts={} end={} tend={} pkts={} dropped={} duped={} delayed={} accepted={} ghost={}:{}:{} idle={} late=0",
             r.c2s.render(),
             r.s2c.render(),
             errs(&r.cerr),
@@ -1002,6 +1051,9 @@ fn run(p: Params) -> String {
             st.duped,
             st.delayed,
             r.accepted,
+            r.ghosts,
+            r.ghost_bytes,
+            r.ghost_bad,
             idle,
         )
     }
